@@ -126,8 +126,9 @@ CLAIMS = {
               "recognizer (a regex only if no string of that priority matches); the LR parser acts on a survivor of maximal length if "
               "longest-match is on and finds none iff nothing survives; GLR with grammar order off keeps exactly those (each becomes a "
               "frontier head), with grammar order on at most one of them. C06_model_iterator_is_iter links the byte-level LR model's "
-              "iterator; Lex.sortedOk certifies the sorted_terminals list of every state of the real table (the 1000-byte bound of the "
-              "sort key is a forced hypothesis, C06_counterexample_long_string). PARTIAL: the final grammar-order step (first = earliest in "
+              "iterator; Lex.sortedOk certifies the sorted_terminals list of every state of the real table (the old packed key prio*1000+len "
+              "made a 1000-byte string outrank the next priority: repaired in /repo, the model key is the pair (prio, len) and the "
+              "`< 1000` hypothesis is gone, C06_long_string_does_not_outrank). PARTIAL: the final grammar-order step (first = earliest in "
               "the grammar) is decided by oracle + correspondence. Tie A: tokens shifted by the real LR parser vs model; LR and GLR token "
               "sequences vs the documented rule written as an independent python specification, all 4 (LR) / 8 (GLR) switch "
               "combinations. One defect found by the oracle is repaired by a fix: commit (priority-group end flag)."),
